@@ -49,7 +49,11 @@ TEXT["cli"] = ("The same TLC-generated and random store behaviours are executed 
                "follow streams (`xs cat --follow`, `xs cat --pulse n --limit m`) run as child processes while frames are appended. "
                "Every answer is also asked of the Store API in the same state (differential: FrontEnd rule of TraceStore); the trace "
                "is validated by TLC against TraceStore.")
+TEXT["nu"] = ("The same TLC-generated and random store behaviours are executed by nu scripts through the commands xs gives to "
+              "scripts (src/nu/commands, src/nu/util.rs), one engine per context wired as src/commands/serve.rs does; every answer "
+              "is also asked of the Store API in the same state (FrontEnd rule); the trace is validated by TLC against TraceStore.")
 NOTE = {
+ "nu": "Trusted: the harness' one-line scripts and its conversion of nu values back to frame JSON (through xs::nu::value_to_json). Bounded: record metas with integers inside i64, printable topics; all-contexts reads, tail, import and POST /cas have no script command and stay with the Store API.",
  "cli": "Trusted: the harness' parsing of the tool's output and error text (HTTP status taken from the client's error message). Bounded: URL-safe topics without NUL; `xs cat --sse` and `xs head --follow` are not exercised through the tool; a successful call that prints nothing ends the behaviour (counted in the evidence).",
  "codec": "Trusted: the transcription is checked against the code by the vectors themselves. Limit of the technique (DESIGN 5, C12): the grammar is exhaustive at token level, data values are classes.",
  "proc": "Trusted: TLC, the runner's normalisation of frames (dense ranks, content tokens), the script catalogue being deterministic. "
@@ -61,6 +65,7 @@ NOTE = {
  "store": "Trusted: TLC, the harness' abstraction of concrete values back to model tokens, the xs_verif hooks (virtual clock, GC gate, raw dump). Bounded: model constants in spec/MC_store_*.cfg; behaviours sampled, not enumerated.",
 }
 TECH = {
+ "nu": "TLC trace validation (TraceStore + differential front-end rule) of model-generated behaviours executed through xs's nu commands",
  "cli": "TLC trace validation (TraceStore + differential front-end rule) of model-generated behaviours executed by the real xs binary",
  "dur": "TLC model checking of XsDurable + real kill images and reconstructed power-loss images recovered by the real store + TLC trace validation (TraceDurable)",
  "codec": "TLC enumeration of a TLA+ transcription of the codec + one implementation test per model case, results validated by TLC",
@@ -69,7 +74,7 @@ TECH = {
  "conc": "TLC model checking of XsConcurrent + gate-scheduled replay/exploration of real threads + TLC trace validation (TraceFollow)",
  "store": "TLC model checking of XsStore + TLC trace validation (TraceStore) of replayed behaviours on the real store",
 }
-DESIGN = {"cli": "DESIGN.md 0.3 (cli group), 5 (C12 C13 C20)", "proc": "DESIGN.md 3 (XsHandlers/XsGenerators/XsCommands), 5 (C14-C19), docs/proc-notes.md", "dur": "DESIGN.md 3 (XsDurable), 4.4, 5 (C04 C10 C07); docs/dur-notes.md", "codec": "DESIGN.md 5 (C12)","http": "DESIGN.md 5 (C13), Appendix D","conc": "DESIGN.md 3, 4.1, 5 (C02 C03 C11)", "store": "DESIGN.md 3, 4, 5 (C01 C05 C07 C08 C09 C20)"}
+DESIGN = {"nu": "DESIGN.md 0.3 (nu group), 5 (C06 C10 C12)", "cli": "DESIGN.md 0.3 (cli group), 5 (C12 C13 C20)", "proc": "DESIGN.md 3 (XsHandlers/XsGenerators/XsCommands), 5 (C14-C19), docs/proc-notes.md", "dur": "DESIGN.md 3 (XsDurable), 4.4, 5 (C04 C10 C07); docs/dur-notes.md", "codec": "DESIGN.md 5 (C12)","http": "DESIGN.md 5 (C13), Appendix D","conc": "DESIGN.md 3, 4.1, 5 (C02 C03 C11)", "store": "DESIGN.md 3, 4, 5 (C01 C05 C07 C08 C09 C20)"}
 
 # what each check decides of its property, and through which group
 PROP = {
